@@ -261,8 +261,6 @@ pushMacScope(void)
 local void
 popMacScope(MacDefScope mds)
 {
-	if (fintMode == FINT_LOOP) return;
-
 	while (macDefs && macDefs != mds)
 		popMacDef();
 }
@@ -388,7 +386,9 @@ macroExpand(AbSyn ab)
 	/* Macro expand the whole parse tree */
 	ab = macEx(ab);
  
-	popMacScope(mds);
+	/* The macros a step of the interactive loop defines at its top level
+	 * stay for the steps after it; those of inner scopes went with them. */
+	if (fintMode != FINT_LOOP) popMacScope(mds);
 
 	/* Store interesting data for subsequent invocations */
 	macexSavedPhaseSymbolDataList =
